@@ -220,10 +220,29 @@ def _enumerate_gates(circuit: Circuit) -> tp.Dict[Label, int]:
     result: tp.Dict[Label, int] = dict()
     for input_label in circuit.inputs:
         result[input_label] = len(result)
-    for gate_label, gate_ in circuit.gates.items():
-        if gate_.gate_type == gate.INPUT:
-            continue
-        result[gate_label] = len(result)
+    # Identifiers must follow a topological order (the decoder requires operands
+    # to be defined earlier); storage order is kept whenever it already is one.
+    expanded: tp.Set[Label] = set()
+    for gate_label in circuit.gates:
+        stack = [gate_label]
+        while stack:
+            label = stack[-1]
+            if label in result:
+                stack.pop()
+                continue
+            pending = [
+                operand
+                for operand in circuit.get_gate(label).operands
+                if operand not in result
+            ]
+            if not pending:
+                result[label] = len(result)
+                stack.pop()
+            elif label in expanded:
+                raise CircuitEncodingError("Tried to encode cyclic circuit")
+            else:
+                expanded.add(label)
+                stack.extend(pending)
     return result
 
 
